@@ -13,15 +13,16 @@
 (* e.g. [t |-> "str", s |-> "a", cp |-> <<97>>, ts |-> NoTs].              *)
 (* A variable or a referenced value that does not exist is RefPath!Missing.*)
 (*                                                                         *)
-(* A rule is a tree of nodes with uniform fields                           *)
+(* A rule is a tree of nodes; a node has the fields its kind uses           *)
+(* (And/Or/Not: op, kids; a comparison: op, var, path and lit or ref):     *)
 (*    op   : "And" | "Or" | "Not" | a comparison operator WITHOUT the      *)
 (*           "Path" suffix ("NumericLessThan", "IsPresent", ...)           *)
-(*    kids : the sub-rules of And / Or / Not (<<>> otherwise)              *)
+(*    kids : the sub-rules of And / Or / Not                               *)
 (*    var  : the Variable, as RefPath steps into the effective input       *)
 (*    path : TRUE for the *Path variant of the operator                    *)
 (*    lit  : the comparison constant (literal form)                        *)
-(*    ref  : RefPath steps of the comparison value (Path form)               *)
-(*    next : the Next field (top-level rules only; "" below)               *)
+(*    ref  : RefPath steps of the comparison value (Path form)             *)
+(*    next : the Next field (top-level rules only)                         *)
 (*                                                                         *)
 (* The result of evaluating a rule is a SET of the possible results        *)
 (* "match" / "nomatch" / "error": a singleton where the property statement *)
@@ -38,7 +39,7 @@ NoTs == [ok |-> FALSE, sec |-> 0, ns |-> 0]
 Str(s, cp) == [t |-> "str", s |-> s, cp |-> cp, ts |-> NoTs]
 TsStr(s, cp, sec, ns) == [t |-> "str", s |-> s, cp |-> cp, ts |-> [ok |-> TRUE, sec |-> sec, ns |-> ns]]
 
-(* rule constructors (the harness writes the same records as JSON) *)
+(* rule constructors for models (every field present; the harness writes the used ones as JSON) *)
 Atom(op, v, lit) == [op |-> op, kids |-> <<>>, var |-> <<KeyStep(v)>>, path |-> FALSE,
                      lit |-> lit, ref |-> <<>>, next |-> ""]
 PathAtom(op, v, r) == [op |-> op, kids |-> <<>>, var |-> <<KeyStep(v)>>, path |-> TRUE,
